@@ -13,7 +13,7 @@ RULE = ("expression trees over all intrinsic + defined operators in both spellin
 ASSUMPTIONS = ["regex lexing of operators is tied by tabulated tables and co-simulation, not proved",
                "known boundary F-C03-1 (defined binary operator followed by a dotted token at the same parenthesis level) is "
                "the negated hypothesis of parse_render_partial"]
-TIE_MODULES = ["FparserModel.Expr", "FparserModel.Props.ExprTie", "FparserModel.Generated.ExprLevels"]
+TIE_MODULES = ["FparserModel.Expr", "FparserModel.Props.ExprTie", "FparserModel.Generated.ExprLevels", "FparserModel.ExprLex", "FparserModel.Generated.ExprLexTables"]
 
 
 def wide_cases(rng, n):
@@ -149,7 +149,23 @@ def cases(tier, seed):
     return out
 
 
+def exprlex_cosim(tier, rep):
+    """string-level lexing model Fp.ExprLex (operator regex scanners, Pattern.rsplit/lsplit,
+    the string match steps) against the real regexes / BinaryOpBase.match, stages A-F of
+    fv/cosim_exprlex.py, in a sub-process"""
+    import subprocess
+    from fv import common
+    n = 250 if tier != "thorough" else 3000
+    r = subprocess.run([common.PY, "-m", "fv.cosim_exprlex", "--seed", str(rep.seed), "--n", str(n)],
+                       cwd=common.VERIF, capture_output=True, text=True, timeout=3000)
+    rep.coverage["exprlex_cosim"] = [l for l in r.stdout.splitlines() if l[:2] in ("A ", "B ", "C ", "D ", "E ", "F ")][-6:]
+    if r.returncode != 0 or "RESULT: PASS" not in r.stdout:
+        rep.violation("correspondence:Fp.ExprLex", "string-level lexing model and the real operator regexes / match steps disagree: %s" % r.stdout[-600:],
+                      {"stdout": r.stdout[-4000:], "stderr": r.stderr[-2000:]}, no_input=True)
+
+
 def run(tier, rep, st):
+    exprlex_cosim(tier, rep)
     # the level table read from the repository must be the model's (also a kernel
     # obligation in Props/ExprTie.lean)
     bad = CE.levels_tie(get_model())
